@@ -188,6 +188,25 @@ def check_pair(st, pchoice, cchoice, rank, only=None):
             except Exception as exc:
                 ok = False
                 st.violation("serialize-raised:" + type(exc).__name__, "%s: %r" % (label, exc), label, rank=rank)
+            # Python serialization: the module for the child must execute, define an equal child and keep it a subclass of an
+            # equal parent (checked for a rotating subset of declarations: exec is the expensive part)
+            if (hash((move, chain, len(pchoice), len(cchoice))) + rank) % 3 == 0 or not pchoice:
+                try:
+                    text = serialize_python(child)
+                    gns = {"__builtins__": __builtins__}
+                    exec(compile(text, "<generated>", "exec"), gns)
+                    gchild, gparent = gns.get("Chi"), gns.get("Par")
+                    if not (gchild == child) or gparent is None or not (gparent == parent) or not issubclass(gchild, gparent):
+                        ok = False
+                        st.violation("child-differs-from-flat:python", "%s: executing serialize_python(child) does not give an equal child below an equal parent" % (label,), {**label, "module": text[:1200]}, rank=rank)
+                    else:
+                        gv = vector(gchild)
+                        if [k for k, _ in gv] != [k for k, _ in fv]:
+                            ok = False
+                            st.violation("child-differs-from-flat:python-behaviour", "%s: the generated child validates differently from the flat class" % (label,), {**label, "module": text[:1200]}, rank=rank)
+                except Exception as exc:
+                    ok = False
+                    st.violation("child-python-module-broken:%s" % type(exc).__name__, "%s: %r" % (label, exc), label, rank=rank)
             for v, (kind, res) in zip(PROBES, craw):
                 if kind == impl.ACCEPT and isinstance(type(res), ObjectMeta):
                     if not isinstance(res, parent) or not isinstance(res, base):
